@@ -76,11 +76,11 @@ fn contradicts(l: &DSol, f: &DSol) -> Option<&'static str> {
 pub fn run_c11(rep: &Report) -> i32 {
     let thorough = rep.is_thorough();
     let corpora = core_corpora(thorough, 1);
-    let max_n = if thorough { 60 } else { 24 };
+    let max_n = if thorough { 60 } else { 16 };
     let cfgs = [SolverCfg::SLG, SolverCfg::REC, SolverCfg::REC_NOCACHE];
     for_each_program(rep, &corpora, |pc, goals| {
         let mut local: BTreeMap<String, u64> = BTreeMap::new();
-        let alpha = super::c10::alphabet(pc.frag, goals, if thorough { 6 } else { 4 });
+        let alpha = super::c10::alphabet(pc.frag, goals, if thorough { 6 } else { 3 });
         for g in &alpha {
             for cfg in cfgs {
                 // full answer on a fresh solver
@@ -120,7 +120,7 @@ pub fn run_c11(rep: &Report) -> i32 {
                 for k in 1..=n {
                     scheds.push(Sched::From(k));
                 }
-                let pair_limit = if thorough { n } else { n.min(8) };
+                let pair_limit = if thorough { n.min(24) } else { n.min(4) };
                 for k in 1..=pair_limit {
                     for j in (k + 1)..=(pair_limit + 1) {
                         scheds.push(Sched::At2(k, j));
